@@ -314,9 +314,9 @@ func genSeqScript(seed uint64, profile string) []string {
 	g.nkeys = 3 + r.intn(6)
 	g.unit = pick(r, []int64{1, 10, 1000, 1 << 30, (1 << 30) + 7, 1 << 36})
 	g.ttl = g.unit * int64(2+r.intn(6))
-	g.clock = pick(r, []int64{1, 1000000000, 1800000000000000000, math.MaxInt64 - (1 << 50)})
+	g.clock = pick(r, []int64{1, 1000000000, 1800000000000000000, 1800000000000000000, math.MaxInt64 - (1 << 50), -5000000000000000, -9000000000000000000})
 	if profile == "huge" {
-		g.clock = pick(r, []int64{1, 1800000000000000000})
+		g.clock = pick(r, []int64{1, 1800000000000000000, -5000000000000000})
 	}
 	bound := "none"
 	switch {
